@@ -1401,11 +1401,18 @@ pub fn sleep_ns(d: u64) {
         return;
       }
       if !driver_step(Some(until)) {
+        let now = now_ns();
         let nd = next_deadline().map_or(until, |x| x.min(until));
-        advance_to(nd.max(now_ns()));
         if nd >= until {
           advance_to(until);
           return;
+        }
+        if nd <= now {
+          // something is due but may not run (its node is stalled): time must pass all the same, in
+          // small steps so that what becomes due in between still runs on time
+          advance_to((now + 1_000_000).min(until));
+        } else {
+          advance_to(nd);
         }
       }
     },
